@@ -26,6 +26,20 @@ Theorem C10_known_loopback_fallback_refuted :
 Proof. exact c10_known_loopback_fallback_refuted. Qed.
 Print Assumptions C10_known_loopback_fallback_refuted.
 
+(* Neighbor discovery: a neighbor advertisement is sent only in answer to a neighbor solicitation
+   with hop limit 255 addressed to the interface, on a medium that does neighbor discovery, whose
+   target is a unicast address OF THE INTERFACE (any unicast address only with any_ip); the
+   advertisement's IPv6 source is that target and it goes to the solicitation's source.  In
+   particular nothing is answered for a target that is not an own address. *)
+Theorem C10_ndisc_reply_source_own : forall ifc socks p res r,
+  ing_process ifc socks p = Ok res -> res_reply res = Some r -> r_kind r = KNeighAdv ->
+  exists target ll,
+    p_upper p = UIcmp (INeighSol target ll 255) /\ if_medium ifc <> MIp /\
+    r_src r = V6 target /\ r_dst r = p_src p /\ ip_is_unicast (r_src r) = true /\
+    (if_any_ip ifc = true \/ own ifc (V6 target)) /\ addressed_to_us ifc p.
+Proof. exact c10_ndisc_reply_source_own. Qed.
+Print Assumptions C10_ndisc_reply_source_own.
+
 (* Socket egress through source selection: a datagram sent by a UDP socket that is unbound or
    bound to an interface address leaves with an own unicast source (get_source_address_ipv4 /
    _ipv6 incl. the RFC 6724 candidate loop), same exclusion. *)
@@ -107,7 +121,7 @@ Print Assumptions C10_error_reply_within_min_mtu.
    lookup_hardware_addr's unreachable!() arms), for routing tables whose routers are unicast. *)
 Theorem C10_ingress_and_reply_dispatch_never_panic : forall ifc socks p,
   wf_routes ifc ->
-  exists res l, ing_process ifc socks p = Ok res /\ ing_ingress_emits ifc res = Ok l.
+  exists res l, ing_process ifc socks p = Ok res /\ ing_ingress_emits_p ifc p res = Ok l.
 Proof. exact c10_ingress_and_reply_dispatch_never_panic. Qed.
 Print Assumptions C10_ingress_and_reply_dispatch_never_panic.
 
